@@ -5,10 +5,17 @@ atomic blocks.
 
 `prefixWriter`: every `Write(p)` appends `p` to a buffer and then emits every complete
 line (`…\n`) of the buffer; the remainder stays buffered.  `close` emits the remainder,
-newline-terminated, if it is not empty.  A line is emitted as the four sink writes
-`"["`, prefix, `"] "`, line — all under the `Prefixed` mutex, i.e. as one atomic block.
+newline-terminated, if it is not empty.  A line is emitted as ONE sink write
+`"[" ++ prefix ++ "] " ++ line` (assembled first; before fix O8-2 it was four writes under a
+mutex that only prefixed writers take, so a raw writer could land in between).
 `groupWriter`: every `Write` only buffers; `close(err)` emits — if the buffer is not
 empty and (not `error_only` or the command failed) — ONE sink write `begin ++ buffer ++ end`.
+
+Atomicity: `Write` and `close` of one writer object hold that object's mutex (fix O8-1; fact
+`Gen.Output.*LockSkeleton`), so each is ONE step of the machine below even when a command has
+several producers (stdout and stderr of a pipeline's stages, background jobs: mvdan/sh and
+os/exec copy from separate goroutines).  The producers' chunk sequences reach the writer in
+SOME interleaving (`Shuffle producers stream`); the writer then behaves as `run stream`.
 -/
 namespace TaskModel.Output
 
@@ -43,7 +50,7 @@ def PW.run (w : PW) : List Bytes → List Bytes
   | [] => w.close
   | p :: ps => let (w', ls) := w.write p; ls ++ PW.run w' ps
 
-/-- the atomic block written to the sink for one line: `[prefix] line` -/
+/-- the ONE write to the sink for one line: `[prefix] line` -/
 def lineBlock (pre line : Bytes) : Bytes := [91] ++ pre ++ [93, 32] ++ line
 
 /-- specification: the lines of a byte string, the last one newline-terminated if partial -/
@@ -79,5 +86,26 @@ inductive Shuffle {α : Type} : List (List α) → List α → Prop
   | done (seqs : List (List α)) (h : ∀ s ∈ seqs, s = []) : Shuffle seqs []
   | step (pre : List (List α)) (x : α) (s : List α) (post : List (List α)) (out : List α)
       (h : Shuffle (pre ++ [s] ++ post) out) : Shuffle (pre ++ [x :: s] ++ post) (x :: out)
+
+/-! ### a writer of any kind and the sink writes it prescribes -/
+
+/-- `p`: prefixed, `g`: group, `r`: raw (a task with `interactive: true`, or Task's own log lines: every
+non-empty chunk goes to the sink as it is) -/
+inductive Writer where
+  | p (pre : Bytes) (chunks : List Bytes)
+  | g (begin_ end_ : Bytes) (errorOnly failed : Bool) (chunks : List Bytes)
+  | r (chunks : List Bytes)
+deriving Repr, DecidableEq
+
+/-- the sequence of sink writes of one writer (each write atomic on the sink) -/
+def Writer.blocks : Writer → List Bytes
+  | .p pre chunks => (({ prefix_ := pre } : PW).run chunks).map (lineBlock pre)
+  | .g b e eo failed chunks => ({ begin_ := b, end_ := e, errorOnly := eo } : GW).run chunks failed
+  | .r chunks => chunks.filter (· ≠ [])
+
+/-- writer `k + j` of the list tags its writes with its index -/
+def tagFrom : Nat → List (List Bytes) → List (List (Nat × Bytes))
+  | _, [] => []
+  | k, s :: rest => s.map (fun b => (k, b)) :: tagFrom (k + 1) rest
 
 end TaskModel.Output
